@@ -195,6 +195,20 @@ type determValidateIn struct {
 type determSkip struct {
 	I   int    `json:"i"`
 	Err string `json:"err"`
+	// set when the failed tx changed a BlockState component that Snapshot/Rollback do not
+	// cover (BpReward, receipts, internalOps, CCProposal) or the in-memory total voting power
+	Leak string `json:"leak,omitempty"`
+}
+
+// determUncovered renders the components of the block state that state.BlockState.Snapshot /
+// Rollback do NOT save (state/block.go:62-75) and the process-wide voting power total.
+func determUncovered(bs *state.BlockState) string {
+	tvp := "nil"
+	if p := system.GetTotalVotingPower(); p != nil {
+		tvp = p.String()
+	}
+	return fmt.Sprintf("BpReward=%s receipts=%d internalOps=%q CCProposal=%v totalVotingPower=%s",
+		bs.BpReward.String(), len(bs.Receipts().Get()), bs.InternalOps(), bs.CCProposal != nil, tvp)
 }
 
 type determAcctObs struct {
@@ -711,7 +725,19 @@ func (n *determNode) produceOn(prev *types.Block, ts int64, cand []*types.Tx) (r
 	bs := cs.sdb.NewBlockState(prev.GetHeader().GetBlocksRootHash(), state.SetPrevBlockHash(prev.BlockHash())) // :238
 	bs.SetGasPrice(system.GetGasPrice())                                                                       // :242
 	bs.Receipts().SetHardFork(cs.cfg.Hardfork, bi.No)                                                          // :243
-	exec := NewTxExecutor(context.Background(), nil, cs.cdb, bi, contract.BlockFactory)                        // :42
+	exec0 := NewTxExecutor(context.Background(), nil, cs.cdb, bi, contract.BlockFactory)                       // :42
+	leak := ""
+	exec := func(b *state.BlockState, tx types.Transaction) error {
+		before := determUncovered(b)
+		err := exec0(b, tx)
+		leak = ""
+		if err != nil {
+			if after := determUncovered(b); after != before {
+				leak = before + " -> " + after
+			}
+		}
+		return err
+	}
 	txIn := make([]types.Transaction, len(cand))
 	for i, tx := range cand {
 		txIn[i] = types.NewTransaction(tx)
@@ -719,7 +745,7 @@ func (n *determNode) produceOn(prev *types.Block, ts int64, cand []*types.Tx) (r
 	i := 0
 	onTx := func(tx types.Transaction, err error) {
 		if err != nil {
-			res.skipped = append(res.skipped, determSkip{i, err.Error()})
+			res.skipped = append(res.skipped, determSkip{I: i, Err: err.Error(), Leak: leak})
 		} else {
 			res.included = append(res.included, i)
 		}
@@ -908,7 +934,7 @@ func determProduce(c *determCase) *determOut {
 		for i := range b.Txs {
 			tx, err := n.buildTx(&b.Txs[i], cid)
 			if err != nil {
-				bad = append(bad, determSkip{i, "verif-build: " + err.Error()})
+				bad = append(bad, determSkip{I: i, Err: "verif-build: " + err.Error()})
 				continue
 			}
 			cand = append(cand, tx)
@@ -927,7 +953,7 @@ func determProduce(c *determCase) *determOut {
 			o.Included = append(o.Included, idx[i])
 		}
 		for _, s := range p.skipped {
-			o.Skipped = append(o.Skipped, determSkip{idx[s.I], s.Err})
+			o.Skipped = append(o.Skipped, determSkip{I: idx[s.I], Err: s.Err, Leak: s.Leak})
 		}
 		if p.block == nil {
 			o.ProduceErr = p.err
